@@ -5,7 +5,7 @@ string -> str, integer -> int, TRUE/FALSE -> bool, model value / identifier -> s
 """
 import re
 
-_tok = re.compile(r'\s*(<<|>>|\|->|:>|@@|\[|\]|\{|\}|\(|\)|,|"(?:[^"\\]|\\.)*"|-?\d+|[A-Za-z_][A-Za-z0-9_]*)')
+_tok = re.compile(r'\s*(<<|>>|\|->|:>|@@|\.\.|\[|\]|\{|\}|\(|\)|,|"(?:[^"\\]|\\.)*"|-?\d+|[A-Za-z_][A-Za-z0-9_]*)')
 
 
 class ParseError(Exception):
@@ -110,6 +110,9 @@ def _parse(toks, i):
     if t == "FALSE":
         return False, i + 1
     if re.fullmatch(r"-?\d+", t):
+        if i + 2 < len(toks) + 0 and i + 1 < len(toks) and toks[i + 1] == "..":
+            hi = int(toks[i + 2])
+            return frozenset(range(int(t), hi + 1)), i + 3
         return int(t), i + 1
     if re.fullmatch(r"[A-Za-z_][A-Za-z0-9_]*", t):
         return "@" + t, i + 1
